@@ -440,6 +440,11 @@ impl Allocator for Arena {
     #[cfg(feature = "tracing")]
     tracing::debug!("discard {size} bytes");
 
+    // the header of a read-only arena lives in a read-only mapping
+    if self.ro {
+      return;
+    }
+
     self.header().discarded.fetch_add(size, Ordering::Release);
   }
 
@@ -455,6 +460,11 @@ impl Allocator for Arena {
 
   #[inline]
   fn set_minimum_segment_size(&self, size: u32) {
+    // the header of a read-only arena lives in a read-only mapping
+    if self.ro {
+      return;
+    }
+
     self
       .header()
       .min_segment_size
